@@ -24,6 +24,9 @@ class SimDisk:
         self.mtime_mode = "fine"  # 'fine': every modification advances the clock; 'coarse': only every 3rd; 'frozen': never
         self.nmod = 0
         self.ino = {}
+        self.fds = {}            # fake descriptor -> path
+        cwd = os.getcwd()
+        self.cwds = sorted({cwd, os.path.normpath(cwd)} | ({os.path.realpath(cwd)} if not hasattr(os.stat, "__wrapped_sim__") else set()))
 
     # -- fault plumbing
     def arm(self, step_id, fault):
@@ -42,6 +45,17 @@ class SimDisk:
     def step(self):
         return self.step_stack[-1]
 
+    def key(self, path):
+        """one name per simulated file however the library spells it: './a.json', Path('a.json').resolve(),
+        os.path.abspath('a.json') (inside the scratch cwd) all denote 'a.json'.  Purely lexical: it must not
+        touch the (patched) file system itself."""
+        p = os.path.normpath(os.fspath(path))
+        if os.path.isabs(p):
+            for cwd in self.cwds:
+                if p.startswith(cwd + os.sep) and os.sep not in p[len(cwd) + 1:]:
+                    return p[len(cwd) + 1:]
+        return p
+
     def ev(self, *a):
         self.log.append(("io",) + a)
 
@@ -52,7 +66,7 @@ class SimDisk:
     def open(self, file, mode="r", buffering=-1, encoding=None, errors=None, newline=None, *args, **kwargs):
         """text and binary modes r / w / a / x with optional '+', like the builtin (the library itself uses
         'r' and 'w'; the other modes exist so that a changed library meets a faithful device, not a harness error)"""
-        path = os.fspath(file)
+        path = self.key(file)
         m = mode.replace("t", "")
         binary = "b" in m
         m = m.replace("b", "")
@@ -99,18 +113,22 @@ class SimDisk:
             buf = io.BufferedReader(raw, buffer_size=bs)
         if binary:
             return buf
-        return io.TextIOWrapper(buf, encoding=encoding or "utf-8", errors=errors, newline=newline)
+        text = io.TextIOWrapper(buf, encoding=encoding or "utf-8", errors=errors, newline=newline)
+        text.mode = mode        # the builtin open() sets this attribute on the text layer as well
+        return text
 
     # -- metadata and namespace operations (reached through GlobalFS)
     def touch(self, path):
         """a modification of `path` happened; the simulated clock is a seam: file systems and kernels with coarse
         time stamps give two successive writes the same mtime, which is legal"""
+        path = self.key(path)
         self.nmod += 1
         if self.mtime_mode == "fine" or (self.mtime_mode == "coarse" and self.nmod % 3 == 0):
             self.clock_ns += 1_000_000
         self.mtime[path] = self.clock_ns
 
     def stat(self, path):
+        path = self.key(path)
         if path not in self.files:
             self.ev(path, "stat-enoent")
             raise FileNotFoundError(errno.ENOENT, os.strerror(errno.ENOENT), path)
@@ -122,6 +140,7 @@ class SimDisk:
                                m / 1e9, m / 1e9, m / 1e9, m, m, m))
 
     def rename(self, src, dst):
+        src, dst = self.key(src), self.key(dst)
         if src not in self.files:
             raise FileNotFoundError(errno.ENOENT, os.strerror(errno.ENOENT), src)
         self.files[dst] = self.files.pop(src)
@@ -136,6 +155,7 @@ class SimDisk:
         self.probe("rename_calls")
 
     def remove(self, path):
+        path = self.key(path)
         if path not in self.files:
             raise FileNotFoundError(errno.ENOENT, os.strerror(errno.ENOENT), path)
         del self.files[path]
@@ -144,6 +164,7 @@ class SimDisk:
         self.ev(path, "remove")
 
     def put_raw(self, path, data):
+        path = self.key(path)
         self.files[path] = bytearray(data)
         self.touch(path)
         self.wopened.add((self.step, path))
@@ -152,12 +173,14 @@ class SimDisk:
 
     # -- model bookkeeping, called by the engine
     def seen_state(self, path):
+        path = self.key(path)
         st = self.state.get(path)
         if st is None:
             return ["absent"]
         return list(st)
 
     def ack(self, path, step_id):
+        path = self.key(path)
         st = self.state.get(path)
         if st and st[0] == "bot" and st[1] == "inflight" and st[2] == step_id:
             self.state[path] = ("ack", step_id)
@@ -167,6 +190,7 @@ class SimDisk:
         return False
 
     def nack(self, path, step_id, why):
+        path = self.key(path)
         # a write that never truncated (open refused, failure before open) leaves the old content valid
         if (step_id, path) in self.wopened:
             self.state[path] = ("bot", why, step_id)
@@ -179,6 +203,14 @@ class SimRaw(io.RawIOBase):
     def fileno(self):
         return self.fd
 
+    @property
+    def name(self):
+        return self.path
+
+    @property
+    def mode(self):
+        return ("rb+" if self.reading else "wb") if self.writing else "rb"
+
     def isatty(self):
         return False
 
@@ -186,6 +218,7 @@ class SimRaw(io.RawIOBase):
         super().__init__()
         SimRaw._next_fd[0] += 1
         self.fd = SimRaw._next_fd[0]
+        disk.fds[self.fd] = path
         self.disk = disk
         self.path = path
         self.reading = reading
@@ -223,7 +256,11 @@ class SimRaw(io.RawIOBase):
     def truncate(self, size=None):
         buf = self.disk.files.setdefault(self.path, bytearray())
         size = self.pos if size is None else size
-        del buf[size:]
+        if size < len(buf):
+            del buf[size:]
+        else:
+            buf.extend(b"\x00" * (size - len(buf)))
+        self.disk.touch(self.path)
         return size
 
     def readinto(self, b):
@@ -233,7 +270,7 @@ class SimRaw(io.RawIOBase):
             f["fired"] = True
             self.disk.ev(self.path, "read-eio", self.pos)
             raise OSError(errno.EIO, os.strerror(errno.EIO), self.path)
-        n = min(len(b), len(data) - self.pos)
+        n = max(0, min(len(b), len(data) - self.pos))      # a file that shrank under an open reader reads as EOF
         if f and f.get("kind") == "read-eio":
             n = min(n, f["at"] - self.pos)          # deliver exactly `at` bytes before failing
         if f and f.get("kind") == "short-read" and n > 1:
@@ -317,12 +354,11 @@ class GlobalFS:
             return False
         if not isinstance(p, str) or not p:
             return False
-        n = os.path.normpath(p)
+        n = self.disk.key(p)
         return not os.path.isabs(n) and os.sep not in n and n not in (".", "..")
 
-    @staticmethod
-    def norm(path):
-        return os.path.normpath(os.fspath(path))
+    def norm(self, path):
+        return self.disk.key(path)
 
     def install(self):
         import builtins
@@ -374,6 +410,57 @@ class GlobalFS:
                 return None
             return real_fsync(fd)
 
+        real_access, real_fstat, real_chmod, real_utime = os.access, os.fstat, os.chmod, os.utime
+
+        def sim_access(path, mode, *a, **kw):
+            if not isinstance(path, int) and fs.is_sim(path):
+                return fs.norm(path) in d.files
+            return real_access(path, mode, *a, **kw)
+
+        def sim_fstat(fd):
+            if isinstance(fd, int) and fd >= SimRaw.FD_BASE and fd in d.fds:
+                return d.stat(d.fds[fd])
+            return real_fstat(fd)
+
+        def sim_chmod(path, *a, **kw):
+            if not isinstance(path, int) and fs.is_sim(path):
+                if fs.norm(path) not in d.files:
+                    raise FileNotFoundError(errno.ENOENT, os.strerror(errno.ENOENT), os.fspath(path))
+                return None
+            return real_chmod(path, *a, **kw)
+
+        def sim_utime(path, *a, **kw):
+            if not isinstance(path, int) and fs.is_sim(path):
+                if fs.norm(path) not in d.files:
+                    raise FileNotFoundError(errno.ENOENT, os.strerror(errno.ENOENT), os.fspath(path))
+                return None
+            return real_utime(path, *a, **kw)
+
+        real_sendfile, real_lseek = getattr(os, "sendfile", None), os.lseek
+
+        def sim_sendfile(out_fd, in_fd, *a, **kw):
+            if max(out_fd, in_fd) >= SimRaw.FD_BASE:
+                raise OSError(errno.EINVAL, "simulated device: no sendfile", None)      # shutil falls back to read/write
+            return real_sendfile(out_fd, in_fd, *a, **kw)
+
+        def sim_lseek(fd, pos, how):
+            if isinstance(fd, int) and fd >= SimRaw.FD_BASE:
+                return 0
+            return real_lseek(fd, pos, how)
+
+        real_listxattr = getattr(os, "listxattr", None)
+
+        def sim_listxattr(path=None, *a, **kw):
+            if path is not None and not isinstance(path, int) and fs.is_sim(path):
+                return []
+            return real_listxattr(path, *a, **kw)
+
+        if real_listxattr is not None:
+            os.listxattr = sim_listxattr
+        if real_sendfile is not None:
+            os.sendfile = sim_sendfile
+        os.lseek = sim_lseek
+        os.access, os.fstat, os.chmod, os.utime = sim_access, sim_fstat, sim_chmod, sim_utime
         builtins.open = sim_open
         io.open = sim_open
         os.stat, os.lstat = sim_stat, sim_lstat
